@@ -186,6 +186,14 @@ theorem seek_pick_inputs_closed {c : UCmp} (hl : LawfulUCmp c) (lim : Limits) (v
       (by intro lvl t' he; cases he; exact hmem) l [t] rfl
   exact ⟨cm, hcm, hsrc, h0, h1, ht0 t (by simp), hall⟩
 
+/-- **`lookup_without_visits_misses`**.  The walk and the answer agree at the empty end: when no auxiliary table holds the
+key and `version.get` consults no table of the version (no level-0 range contains the key, no deeper level has a
+candidate), the lookup reports the key absent from the version — the model of the walk (`Seek.visits`) and the
+lookup of C01 (`versionGet`) are two views of the same code. -/
+theorem lookup_without_visits_misses (c : UCmp) (aux : Level) (v : Version) (k : Bytes) (s : Nat)
+    (haux : l0Get c aux k s = none) (h : Seek.visits c aux v k s = []) : versionGet c aux v k s = .miss :=
+  Seek.versionGet_miss_of_no_visits c aux v k s haux h
+
 /-- non-vacuity: key `[3]` lies in the ranges of both level-0 tables and is held by neither (entries `[1],[5]` /
 `[2],[4]`): the first one consulted is charged; key `[1]` is found in the first table consulted after one more
 level-0 visit; a key outside every range consults nothing -/
@@ -203,4 +211,4 @@ def GoLevel.C06Score.theorems : List String :=
   ["GoLevel.C06Score.computed_level_is_first_max", "GoLevel.C06Score.score_ge1_iff_some_level_over",
    "GoLevel.C06Score.score_pick_has_inputs", "GoLevel.C06Score.paused_writer_waits_for_real_work",
    "GoLevel.C06Score.pause_below_trigger_waits_for_nothing", "GoLevel.C06Score.seek_charge_in_version",
-   "GoLevel.C06Score.seek_pick_inputs_closed"]
+   "GoLevel.C06Score.seek_pick_inputs_closed", "GoLevel.C06Score.lookup_without_visits_misses"]
